@@ -536,6 +536,20 @@ Proof.
   apply (x_seq_n _ _ _ [EStorage Upload] (Some W) [EReturn (StCode 201)]); constructor.
 Qed.
 
+(* [discipline] is satisfiable by a non-trivial trace (hypothesis of the two theorems below) and is violated
+   by the free-busy trace of the unpatched server (storage read after the early unlock) *)
+Example c10_discipline_example :
+  discipline [EParse; EAcquire W; EStorage Discover; EStorage Upload; EReturn (StCode 201); EHook; ERelease].
+Proof. apply disciplineb_sound. vm_compute. reflexivity. Qed.
+Example c10_discipline_freebusy_violated :
+  ~ discipline [EParse; EAcquire R; EStorage Discover; EStorage GetFiltered; ERelease; EStorage Tag; EReturn (StCode 200)].
+Proof.
+  intro H.
+  specialize (H [EParse; EAcquire R; EStorage Discover; EStorage GetFiltered; ERelease] (EStorage Tag)
+                [EReturn (StCode 200)] eq_refl).
+  simpl in H. exact H.
+Qed.
+
 (* readable consequences of [discipline] *)
 Definition nolock (e : event) : Prop := e <> ERelease /\ forall m', e <> EAcquire m'.
 
@@ -616,6 +630,12 @@ Proof.
   { destruct e; simpl in He; try contradiction; simpl in E; destruct q1; try discriminate; reflexivity. }
   subst q1. exact Hinv.
 Qed.
+
+Example c19_checker_accepts :
+  check_parse_first (SSeq (STry SParse (SReturn (Some (StCode 400)))) (SWith R (SStorage Discover))) = true.
+Proof. vm_compute. reflexivity. Qed.
+Example c19_checker_rejects_lock_before_parse : check_parse_first (SWith R (SSeq SParse (SStorage Discover))) = false.
+Proof. vm_compute. reflexivity. Qed.
 
 Theorem c19_checker_sound s : check_parse_first s = true -> forall t, trace_of s t -> parse_first t.
 Proof.
